@@ -285,5 +285,5 @@ func splitArgs(s string) []string {
 	}
 	return out
 }
-func sto(a, i, v string) string   { return "(store " + a + " " + i + " " + v + ")" }
+func sto(a, i, v string) string      { return "(store " + a + " " + i + " " + v + ")" }
 func constArr(sort, v string) string { return "((as const " + sort + ") " + v + ")" }
